@@ -704,6 +704,12 @@ def c13_instances(tier):
     sets = [([2], [1, 2], [], 1, 0.5), ([1], [2], [2, 1], 1, 2.0), ([2], [], [], 2, 0.0)]
     if tier == "thorough":
         sets += [([2, 2], [2], [1], 1, 0.5), ([2], [2], [], 2, 2.0), ([1], [2], [1, 2], 2, 0.5), ([3], [], [], 2, 1.0), ([1, 1], [2, 1], [2], 1, 1.0)]
+    # concrete gradients with an all-zero gradient on one parameter (special value class)
+    for zmask in ((1, 2) if tier == "quick" else (1, 2, 4, 3)):
+        I.append(simple_inst("update_z_instance", "c13_update_zero__2__1x2__2__z%d" % zmask, "[2], [1, 2], [2], 1, 7, 0.5, %d" % zmask,
+                             "GradientDescent::update with an all-zero gradient",
+                             "a parameter whose gradient is all zeros is still stepped (by zero) and cleared; the others meet their own gradients",
+                             "three parameters, all holding CONCRETE gradients, parameter set %s all-zero; values symbolic" % bin(zmask), unwind=14))
     for a, b, c, rounds, lr in sets:
         k = len([x for x in (a, b, c) if x])
         masks = range(2 ** k) if (tier == "thorough" or k <= 2) else (0b101, 0b010, 0b110, 0b111)
@@ -752,7 +758,10 @@ def c14_instances(tier):
                      unwind=12, timeout=1500, mem_gb=30),
          simple_inst("update_instance", "c14_step__2__2x1__none__r2__m3", "[2], [2, 1], [], 2, 3, 0.5", "GradientDescent::update, two consecutive steps",
                      "the optimizer step of an iteration leaves clean fresh leaves: a second step without new gradients changes nothing",
-                     "two parameters, both with gradients in round 1, none in round 2", unwind=14, timeout=900)]
+                     "two parameters, both with gradients in round 1, none in round 2", unwind=14, timeout=900),
+         simple_inst("update_z_instance", "c14_step_zero__2__2x1__z1", "[2], [2, 1], [], 1, 3, 0.5, 1", "GradientDescent::update with an all-zero gradient",
+                     "an iteration whose first parameter has an exactly all-zero gradient still steps the later parameters with their own gradients",
+                     "two parameters, concrete gradients (first all zeros), values symbolic", unwind=14, timeout=900)]
     if tier == "thorough":
         I += [simple_inst("train2_instance", "c14_train2__b1_1to1_i2", "1, 1, 1, 2, 0.5", "forward / backward / GradientDescent::update loop",
                           "each iteration returns the current loss and moves every parameter by -lr x exact gradient of that loss; parameters are "
